@@ -55,7 +55,10 @@ impl<'c> Body for SeqBody<'c> {
             ledger_mid,
             held_ids,
             completed,
-            sched: SchedStats::default(),
+            sched: SchedStats {
+                sequential: true,
+                ..SchedStats::default()
+            },
         }
     }
 }
